@@ -19,6 +19,23 @@ type castSite struct {
 	Src string `json:"src"`
 	Ptr bool   `json:"ptr"`
 	Typ string `json:"typ,omitempty"` // the value's type property ("" = a marker string)
+	// what the item-valued properties of the source hold: "" = IRIs, else embedded values of that struct (a page
+	// whose partOf is its collection by value, an activity whose object is an embedded activity …)
+	Embed string `json:"embed,omitempty"`
+}
+
+// embedded values in the item-valued properties: each with its own id, name and members, different from the source's
+func embedMarkers(sv reflect.Value, embed string) {
+	for i := 0; i < sv.NumField(); i++ {
+		f := sv.Type().Field(i)
+		if kindOfType(f.Type) != "item" {
+			continue
+		}
+		ev := reflect.New(goTypes[embed])
+		fillMarkers(ev.Elem(), "e-"+f.Name+"-")
+		ev.Elem().FieldByName("Type").SetString(vocab[embed][0])
+		sv.Field(i).Set(ev)
+	}
 }
 
 var c08Fns = map[string]func(ap.Item) (interface{}, error){
@@ -102,6 +119,9 @@ func c08Site(s castSite) (outcome string, viol string) {
 	st := goTypes[s.Src]
 	pv := reflect.New(st)
 	fillMarkers(pv.Elem(), "a-")
+	if s.Embed != "" {
+		embedMarkers(pv.Elem(), s.Embed)
+	}
 	if s.Typ != "" {
 		pv.Elem().FieldByName("Type").SetString(s.Typ)
 	}
@@ -133,6 +153,10 @@ func c08Site(s castSite) (outcome string, viol string) {
 		}
 	}
 	if s.Ptr {
+		before := make([]interface{}, st.NumField())
+		for i := range before {
+			before[i] = pv.Elem().Field(i).Interface()
+		}
 		// writes through the view of a pointer are seen by the original
 		for i := 0; i < dt.NumField(); i++ {
 			name := dt.Field(i).Name
@@ -149,7 +173,7 @@ func c08Site(s castSite) (outcome string, viol string) {
 			if _, shared := dt.FieldByName(rhoName(dt, st, name)); shared {
 				continue
 			}
-			if want := markerFor(st.Field(i).Type, "a-"+name); name != "Type" && !reflect.DeepEqual(pv.Elem().Field(i).Interface(), want.Interface()) {
+			if name != "Type" && !reflect.DeepEqual(pv.Elem().Field(i).Interface(), before[i]) {
 				return "ok", fmt.Sprintf("%s(*%s): writing through the view changed %s, which the view does not have", s.Fn, s.Src, name)
 			}
 		}
@@ -194,6 +218,26 @@ func init() {
 							cls = "C08/widening:" + fn + "(" + src + ")"
 						}
 						c.Fail(cls, viol, s)
+					}
+					// the same conversion with embedded values (not IRIs) in the source's item-valued properties: the view is
+					// still the view of the source, not of something the source refers to
+					if out == "ok" && viol == "" {
+						for _, embed := range []string{"Collection", "OrderedCollection", "Object", "Activity"} {
+							s2 := s
+							s2.Embed = embed
+							var out2, viol2 string
+							if p, msg := guard(func() { out2, viol2 = c08Site(s2) }); p {
+								out2, viol2 = "panic", "panic: "+msg
+							}
+							c.Count(s2, "To"+src != fn)
+							c.Tag("cast-embedded/" + out2)
+							if out2 != out && viol2 == "" {
+								viol2 = fmt.Sprintf("%s(%s) is %s with IRIs in the item-valued properties and %s with embedded %s values there", fn, src, out, out2, embed)
+							}
+							if viol2 != "" {
+								c.Fail("C08/view", viol2, s2)
+							}
+						}
 					}
 					if out == "ok" && checkptr != "" && c.Thorough() {
 						b, _ := json.Marshal(s)
@@ -404,6 +448,26 @@ func c08AfterSuccess(it ap.Item, size uintptr, first string) string {
 
 func init() {
 	c08Foreign = append(c08Foreign,
+		c08ForeignCase{"OnCollection / OnOrderedCollection on a list with room to spare", func() string {
+			for _, on := range []string{"OnCollection", "OnOrderedCollection"} {
+				l := make(ap.ItemCollection, 0, 8)
+				_ = l.Append(ap.IRI("https://example.com/1"), ap.IRI("https://example.com/2"), ap.IRI("https://example.com/3"))
+				added := ap.IRI("https://example.com/added")
+				var err error
+				if on == "OnCollection" {
+					err = ap.OnCollection(&l, func(c *ap.Collection) error { return c.Append(added) })
+				} else {
+					err = ap.OnOrderedCollection(&l, func(c *ap.OrderedCollection) error { return c.Append(added) })
+				}
+				if err != nil {
+					continue // refusing is allowed
+				}
+				if !l.Contains(added) || len(l) != 4 {
+					return fmt.Sprintf("%s accepted a list and an item appended through the view is not in the list afterwards (%d members)", on, len(l))
+				}
+			}
+			return ""
+		}},
 		c08ForeignCase{"refusals after ToObject(*foreign note)", func() string {
 			n := &c08FNote{ID: "https://example.com/f/5", Type: ap.NoteType}
 			return c08AfterSuccess(n, reflect.TypeOf(*n).Size(), "ToObject")
